@@ -459,6 +459,10 @@ func recordedError(ev ssa.Value, b *ssa.BasicBlock) bool {
 //	                     (C15: dropping both reverts the view to the last commit)
 //	temp-id-advances     on the temporary-address path of GenerateSlabID the counter the identifier is built from is
 //	                     advanced on every call (C09: two live slabs never share an identifier)
+// storageLayerFields: the fields of PersistentSlabStorage that make up the overlay model.
+var storageLayerFields = map[string]bool{"deltas": true, "cache": true, "baseStorage": true, "tempSlabIndex": true,
+	"cborEncMode": true, "cborDecMode": true, "DecodeStorable": true, "DecodeTypeInfo": true}
+
 func ruleS11(p *Prog, r *Report) {
 	const R = "S11"
 	n := 0
@@ -515,10 +519,8 @@ func ruleS11(p *Prog, r *Report) {
 					return
 				}
 				for _, x := range b.Instrs {
-					if cc, ok := isBuiltinCall(x, "delete"); ok && len(cc.Args) == 2 {
-						if fr, ok := asLoadedField(cc.Args[0]); ok && fr.is(storageT, "deltas") && sameValue(cc.Args[1], idv) {
-							return
-						}
+					if fw, ok := p.fieldWriteOfX(x); ok && fw.Kind == "mapdelete" && fw.Ref.is(storageT, "deltas") && sameValue(fw.Key, idv) {
+						return
 					}
 					if ret, ok := x.(*ssa.Return); ok {
 						if cl, _ := classifyReturn(ret); cl != retError {
@@ -565,7 +567,8 @@ func ruleS11(p *Prog, r *Report) {
 		other := ""
 		eachInstr(f, func(z ssa.Instruction) {
 			if st, ok := z.(*ssa.Store); ok {
-				if fr, ok := asFieldAddr(st.Addr); ok && fr.Owner != nil && fr.Owner.Obj().Name() == storageT && fr.Field != d.field {
+				// (a field outside the layering model - a statistic kept beside a layer - is not the other layer)
+				if fr, ok := asFieldAddr(st.Addr); ok && fr.Owner != nil && fr.Owner.Obj().Name() == storageT && fr.Field != d.field && storageLayerFields[fr.Field] {
 					other = fr.Field
 				}
 			}
@@ -663,12 +666,8 @@ func (p *Prog) wrapperRetires(g *ssa.Function) bool {
 	}
 	key := g.Params[i]
 	isDel := func(z ssa.Instruction) bool {
-		if cc, ok := isBuiltinCall(z, "delete"); ok && len(cc.Args) == 2 {
-			if fr, ok := asLoadedField(cc.Args[0]); ok && fr.is(storageT, "deltas") && sameValue(cc.Args[1], key) {
-				return true
-			}
-		}
-		return false
+		fw, ok := p.fieldWriteOfX(z)
+		return ok && fw.Kind == "mapdelete" && fw.Ref.is(storageT, "deltas") && sameValue(fw.Key, key)
 	}
 	return successReturnAvoiding(g, nil, isDel) == nil
 }
